@@ -1274,8 +1274,10 @@ class ContactHandler(Messenger, dbus.service.Object):
         for (key, val) in self._sess_parameters.items():
             if val is None:
                 continue
-            if isinstance(val, int):
-                val = min(2 ** 31 - 1, val)
+            if isinstance(val, int) and not isinstance(val, bool):
+                # the message fields are unsigned of up to 64 bits, which
+                # a variant does not hold unless told so
+                val = dbus.UInt64(val)
             elif isinstance(val, ipaddress._BaseAddress):
                 val = str(val)
             params[key] = val
